@@ -127,6 +127,9 @@ pub fn run_scripted(c: &ScriptedCase, keep_log: bool) -> RunReport {
     let k = c.init.len();
     let mut mon = TraceMonitor::new(k);
     mon.ranges = Some(c.bounds.clone());
+    if keep_log {
+        mon.snapshot_every = Some(c.cfg.effective_inner());
+    }
     let sink = Arc::new(Mutex::new(ScriptedSinkImpl { mon, labels: vec![], log: vec![], keep_log }));
     let dynsink: Arc<Mutex<dyn ScriptSink>> = sink.clone();
     let state = Scripted::new(&c.init, &c.bounds, c.script.clone(), dynsink);
@@ -469,6 +472,7 @@ impl ScriptSink for ProbeSink {
                 self.tally.probes_seen += 1;
                 if let (Some((av, ascore)), Some(s)) = (self.last_anchor.as_ref(), score) {
                     let diff: Vec<usize> = (0..bits.len()).filter(|i| av[*i] != bits[*i]).collect();
+                    // (a probe clamped onto the value it started from cannot be told apart)
                     if diff.len() == 1 && self.pending.is_none() {
                         let prop = call.saturating_sub(1);
                         let inner = self.inner.max(1);
